@@ -31,6 +31,7 @@ type Solver struct {
 	out     *bufio.Reader
 	timeout int // ms per query
 	Queries int
+	Retries int // queries repeated with a longer limit after "unknown"
 	Time    time.Duration
 	log     *strings.Builder // when non-nil, everything sent is logged (for cross-checking)
 	dead    bool
@@ -148,7 +149,21 @@ func (s *Solver) CheckAssuming(lit string) (SatResult, string) {
 	return s.check("(check-sat-assuming (" + lit + "))\n")
 }
 
+// check sends one check command. A plain "unknown"/"timeout" (the per-query limit was hit, which
+// on a loaded machine happens to queries that normally take a fraction of it) is retried once
+// with six times the limit before it is reported as inconclusive.
 func (s *Solver) check(cmd string) (SatResult, string) {
+	res, msg := s.check1(cmd)
+	if res == Unknown && (msg == "unknown" || msg == "timeout") && s.kind != CVC5 && !s.dead {
+		s.send(fmt.Sprintf("(set-option :timeout %d)\n", s.timeout*6))
+		res, msg = s.check1(cmd)
+		s.send(fmt.Sprintf("(set-option :timeout %d)\n", s.timeout))
+		s.Retries++
+	}
+	return res, msg
+}
+
+func (s *Solver) check1(cmd string) (SatResult, string) {
 	t0 := time.Now()
 	s.send(cmd)
 	s.Queries++
